@@ -326,7 +326,7 @@ def _multiply(op1: Any, op2: Any) -> Any:
 
 
 def _check_concat_size(op1: Any, op2: Any):
-    if isinstance(op1, list) and isinstance(op2, Sized) and len(op1) + len(op2) > MAX_ARRAY_SIZE:
+    if isinstance(op1, (list, tuple)) and isinstance(op2, Sized) and len(op1) + len(op2) > MAX_ARRAY_SIZE:
         raise ParserError(f'Array size overflow: {MAX_ARRAY_SIZE}')
 
 
